@@ -33,6 +33,10 @@ PROFILE = L.profile(without=['clear', 'pickle', 'unpickle', 'rawupdate', 'rawdel
 
 def corpus():
     return [
+        # fixed (71eb426): a lazy set() with a property keyword whose setter refuses queued the column values before raising
+        {'cfg': {'cache': False, 'freq': 5, 'frac': 1}, 'ops': [['create', 1, [[1, 100], [0, 3]]], ['set', 0, [[0, None], [1, 101], [4, 'bad']]],
+                                                                 ['read', 0, 0], ['syncupdate', 0], ['set', 0, [[4, 2], [0, 7]]], ['syncupdate', 0]]},
+        {'cfg': {'cache': True, 'freq': 100, 'frac': 2}, 'ops': [['create', 0, [[1, 100], [0, 3]]], ['set', 0, [[0, 4], [4, 'bad'], [2, 1]]], ['read', 0, 0]]},
         # fixed (6e79cab): a lazy set() with an unknown keyword queued the other values before raising TypeError
         {'cfg': {'cache': True, 'freq': 100, 'frac': 2}, 'ops': [['create', 1, [[1, 100]]], ['set', 0, [[0, 5], [3, 1]]], ['read', 0, 0], ['syncupdate', 0]]},
         {'cfg': {'cache': True, 'freq': 100, 'frac': 2}, 'ops': [['create', 0, [[1, 100], [0, 1]]], ['set', 0, [[0, 3], [2, 'bad']]]]},
@@ -292,7 +296,7 @@ def run_xid(case):
         cur = raw.cursor()
         out = []
         for t in L.TABLES:
-            cur.execute('SELECT id, a, u, n FROM %s ORDER BY id' % t)
+            cur.execute('SELECT id, a_c, u_c, n_c FROM %s ORDER BY id' % t)
             out.append([list(r) for r in cur.fetchall()])
         cur.close()
         conn.releaseConnection(raw)
